@@ -52,3 +52,29 @@ class OutputProcessTrace:
         return same(self.res[old(len(self.res))]._subcircuit, old(self.subcircuits[self.index]))
 
     raises_only = ()
+
+
+from jaqalpaq.core.result import Subcircuit
+from jaqalpaq.core.algorithm.walkers import Trace
+from jaqalpaq.ipc.ipc import IpcSubcircuit
+
+
+@contract("core.result:Readout.as_str", props=["C15"])
+class ReadoutAsStr:
+    """C15: the string form has exactly n characters and character j is '1' exactly when bit j of the integer
+    form is set - qubit 0 is the least significant bit and the leftmost character"""
+
+    def requires(self):
+        return (type_is(self, Readout) and is_int(self._result) and isinstance(self._subcircuit, Subcircuit)
+                and not isinstance(self._subcircuit, IpcSubcircuit) and type_is(self._subcircuit._trace, Trace)
+                and isinstance(self._subcircuit._trace.used_qubits, list) and len(self._subcircuit._trace.used_qubits) >= 1
+                and 0 <= self._result and self._result < pow2(len(self._subcircuit._trace.used_qubits)))
+
+    def ensures_length(self, result):
+        return is_str(result) and str_len(result) == len(self._subcircuit._trace.used_qubits)
+
+    def ensures_little_endian(self, result):
+        return forall_range(len(self._subcircuit._trace.used_qubits),
+                            lambda j: (result[j] == "1" or result[j] == "0") and ((result[j] == "1") == bit(self._result, j)))
+
+    raises_only = ()
